@@ -274,8 +274,26 @@ class Gen:
             t = None
             if dtypes is None and self.boolean(0.3) and self.free[ch[0]] <= set(self.active):
                 t = self.twin(ch[0], depth)
+            if t is None and dtypes is None and op in ('add', 'sub', 'mul') and dtype != 'bool' and self.boolean(0.2) and self.free[ch[0]] <= set(self.active):
+                t = self.cofactor(ch[0], dtype, shape, depth)
             ch.append(t if t is not None else self.gen((dtypes[i] if dtypes else dtype), shape, depth, op))
+        if n == 2 and self.boolean(0.3):
+            ch = ch[::-1] if op in ('add', 'mul') else ch
         return self.emit(op, ch, {}, dtype, shape)
+
+    def cofactor(self, idx, dtype, shape, depth):
+        """a second operand that shares factors with node idx (x, -x, x*z, (-x)*z, z*(-x)*w, reordered products): the sum/product
+        rules that match common factors (Multiply._add, Power merging) only fire on operands built from shared subterms"""
+        x = idx
+        n = self.nodes[idx]
+        if n['op'] == 'mul' and self.boolean(0.5):
+            x = self.emit('mul', n['ch'][::-1], {}, dtype, shape)
+        if self.boolean(0.5):
+            x = self.emit('neg', [x], {}, dtype, shape)
+        for _ in range(self.choice([0, 1, 1, 1, 2])):
+            z = self.gen(dtype, shape, min(depth, 1), 'mul')
+            x = self.emit('mul', [x, z] if self.boolean(0.6) else [z, x], {}, dtype, shape)
+        return x
 
     def g_add(self, dtype, shape, depth): return self._nary('add', dtype, shape, depth)
     def g_mul(self, dtype, shape, depth): return self._nary('mul', dtype, shape, depth)
